@@ -186,6 +186,22 @@ where
     }
 }
 
+/// Escape a string constant so that the parser's `string` rule reads back the same
+/// characters: ASCII goes through `escape_default`, anything else is printed as is
+/// (the parser reads `\xNN` back as the single character U+00NN, so escaping the
+/// UTF-8 bytes of a non-ASCII character would not round-trip).
+fn escape_string(s: &str) -> String {
+    s.chars()
+        .flat_map(|c| {
+            if c.is_ascii() {
+                escape_default(c as u8).map(char::from).collect::<Vec<char>>()
+            } else {
+                vec![c]
+            }
+        })
+        .collect()
+}
+
 impl Constant {
     pub fn to_pretty(&self) -> String {
         let mut w = Vec::new();
@@ -221,15 +237,7 @@ impl Constant {
             Constant::String(s) => RcDoc::text("string")
                 .append(RcDoc::line())
                 .append(RcDoc::text("\""))
-                .append(RcDoc::text(
-                    String::from_utf8(
-                        s.as_bytes()
-                            .iter()
-                            .flat_map(|c| escape_default(*c).collect::<Vec<u8>>())
-                            .collect(),
-                    )
-                    .unwrap(),
-                ))
+                .append(RcDoc::text(escape_string(s)))
                 .append(RcDoc::text("\"")),
             Constant::Unit => RcDoc::text("unit")
                 .append(RcDoc::line())
@@ -283,15 +291,7 @@ impl Constant {
             Constant::Integer(i) => RcDoc::as_string(i),
             Constant::ByteString(bs) => RcDoc::text("#").append(RcDoc::text(hex::encode(bs))),
             Constant::String(s) => RcDoc::text("\"")
-                .append(RcDoc::text(
-                    String::from_utf8(
-                        s.as_bytes()
-                            .iter()
-                            .flat_map(|c| escape_default(*c).collect::<Vec<u8>>())
-                            .collect(),
-                    )
-                    .unwrap(),
-                ))
+                .append(RcDoc::text(escape_string(s)))
                 .append(RcDoc::text("\"")),
             Constant::Unit => RcDoc::text("()"),
             Constant::Bool(b) => RcDoc::text(if *b { "True" } else { "False" }),
